@@ -1,8 +1,8 @@
 --------------------------- MODULE ParserMachine ---------------------------
 (***************************************************************************)
 (* The text parser as the code implements it (C04, C14):                   *)
-(*   PBlockSize   parse_block_size_from_bytes  (digit accumulation with    *)
-(*                overflow flag, the four block size error kinds)          *)
+(*   PBlockSize   parse_block_size_from_bytes  (the block size error kinds  *)
+(*                and offsets; 32-bit range decided on the digit string)   *)
 (*   PBlockHash   parse_block_hash_from_bytes  (char-by-char machine with  *)
 (*                seq / seq_start / seq_start_in / prev / len / index,     *)
 (*                the capacity check after run collapsing, the strict      *)
@@ -14,30 +14,26 @@
 (* MCParser checks PParse against the declarative grammar Text!Parse.      *)
 (***************************************************************************)
 EXTENDS Text
-CONSTANT U32MAX             \* 4294967295 does not fit a TLC integer: the scaled models never reach it
 
-IsPow2(n) == n > 0 /\ \E k \in 0..30 : n = 2^k
-BsValid(v) == v % 3 = 0 /\ IsPow2(v \div 3)
-Log2(n) == CHOOSE k \in 0..30 : n = 2^k
-
-(* ---- block size field: returns [ok, v, next] or [ok |-> FALSE, kind, off] ---- *)
-RECURSIVE PBlockSizeLoop(_, _, _, _)
-PBlockSizeLoop(t, i, v, inrange) ==          \* i: 0-based index of the byte examined
-  IF i >= Len(t) THEN [ok |-> FALSE, kind |-> "UnexpectedEndOfString", off |-> Len(t)]
-  ELSE LET c == t[i + 1] IN
-       IF IsDigit(c)
-       THEN IF ~inrange THEN PBlockSizeLoop(t, i + 1, v, FALSE)
-            ELSE LET nv == v * 10 + (c - 48) IN
-                 IF v > (U32MAX - (c - 48)) \div 10 THEN PBlockSizeLoop(t, i + 1, v, FALSE)      \* checked_mul / checked_add
-                 ELSE IF nv = 0 THEN [ok |-> FALSE, kind |-> "BlockSizeStartsWithZero", off |-> 0]
-                 ELSE PBlockSizeLoop(t, i + 1, nv, TRUE)
-       ELSE IF c = COLON
-            THEN IF i = 0 THEN [ok |-> FALSE, kind |-> "BlockSizeIsEmpty", off |-> 0]
-                 ELSE IF ~inrange THEN [ok |-> FALSE, kind |-> "BlockSizeIsTooLarge", off |-> 0]
-                 ELSE IF ~BsValid(v) THEN [ok |-> FALSE, kind |-> "BlockSizeIsInvalid", off |-> 0]
-                 ELSE [ok |-> TRUE, k |-> Log2(v \div 3), next |-> i + 1]
-            ELSE [ok |-> FALSE, kind |-> "UnexpectedCharacter", off |-> i]
-PBlockSize(t) == PBlockSizeLoop(t, 0, 0, TRUE)
+(* ---- block size field: returns [ok, k, next] or [ok |-> FALSE, kind, off].
+   The code accumulates a u32 with checked arithmetic and an "in range" flag; 4294967295 does not fit
+   a TLC integer, so the same decisions are stated on the digit string: a leading '0' is refused at
+   once; the value fits 32 bits iff it has fewer than 10 digits or has 10 digits and is not above
+   "4294967295" digit by digit; it is valid iff it is one of the 31 canonical decimal texts ---- *)
+U32MaxDigits == <<52, 50, 57, 52, 57, 54, 55, 50, 57, 53>>          \* "4294967295"
+RECURSIVE DigitsLE(_, _, _)
+DigitsLE(x, y, i) == IF i > Len(x) THEN TRUE
+                     ELSE IF x[i] < y[i] THEN TRUE ELSE IF x[i] > y[i] THEN FALSE ELSE DigitsLE(x, y, i + 1)
+FitsU32(ds) == Len(ds) < 10 \/ (Len(ds) = 10 /\ DigitsLE(ds, U32MaxDigits, 1))
+PBlockSize(t) ==
+  LET n == SpanEnd(t, 1, TRUE) - 1 IN                                \* number of leading digits
+  IF n >= 1 /\ t[1] = 48 THEN [ok |-> FALSE, kind |-> "BlockSizeStartsWithZero", off |-> 0]
+  ELSE IF n = Len(t) THEN [ok |-> FALSE, kind |-> "UnexpectedEndOfString", off |-> Len(t)]
+  ELSE IF t[n + 1] # COLON THEN [ok |-> FALSE, kind |-> "UnexpectedCharacter", off |-> n]
+  ELSE IF n = 0 THEN [ok |-> FALSE, kind |-> "BlockSizeIsEmpty", off |-> 0]
+  ELSE IF ~FitsU32(SubSeq(t, 1, n)) THEN [ok |-> FALSE, kind |-> "BlockSizeIsTooLarge", off |-> 0]
+  ELSE IF ~(\E k \in 0..(NUMBS - 1) : SubSeq(t, 1, n) = BlockSizeText[k]) THEN [ok |-> FALSE, kind |-> "BlockSizeIsInvalid", off |-> 0]
+  ELSE [ok |-> TRUE, k |-> CHOOSE k \in 0..(NUMBS - 1) : SubSeq(t, 1, n) = BlockSizeText[k], next |-> n + 1]
 
 (* ---- block hash field starting at 0-based offset `base`: returns
         [state, used, out (symbols), extra (characters removed by run collapsing)] ---- *)
